@@ -99,7 +99,17 @@ class Model:
         self.node_renders = 0
         self.provider_seq = 0
         self.probes = {}
-        self.cur_render = []      # stack of insts whose template (or slot content) is being rendered
+        self.cur = None           # instance whose template / slot content is being rendered (None: the page)
+
+    def path_of(self, inst):
+        names = []
+        while inst is not None:
+            names.append(inst.name)
+            inst = inst.parent
+        return tuple(reversed(names))
+
+    def event(self, label, inst=None):
+        self.events.append((label, self.path_of(inst if inst is not None else self.cur)))
 
     def probe(self, name):
         self.probes[name] = self.probes.get(name, 0) + 1
@@ -129,7 +139,7 @@ class Model:
             elif k == "var":
                 out.append(self.to_str(env.lookup(n[1])))
             elif k == "varf":
-                self.events.append("filter:" + n[2])
+                self.event("filter:" + n[2])
                 out.append(self.to_str(env.lookup(n[1])))
             elif k == "if":
                 if truthy(env.lookup(n[1], False)):
@@ -166,7 +176,7 @@ class Model:
                 p2[n[1]] = (self.provider_seq, kw)
                 self.render_nodes(n[3], env, owner, p2, out, ck)
             elif k == "fault":
-                self.events.append("tag:" + n[1])
+                self.event("tag:" + n[1])
             elif k == "filled":
                 if owner is None:
                     out.append("")
@@ -210,7 +220,9 @@ class Model:
         fills = self.discover(bk, body, env, owner, prov, ck)
         if dyn:
             inst = Inst(len(self.insts), "dynamic", None)
+            inst.parent = self.cur
             self.insts.append(inst)
+            self.event("gcd:dynamic-internal", inst)
             inst.dyn_target = cname
             inst.kw = kw
             inst.fills = fills
@@ -220,6 +232,7 @@ class Model:
             inst.env = env if (self.mode == "django" and not only) else Env()
             return inst
         inst = Inst(len(self.insts), cname, self.comps[cname])
+        inst.parent = self.cur
         self.insts.append(inst)
         inst.fills = fills
         inst.prov = prov
@@ -231,7 +244,7 @@ class Model:
 
     def gcd(self, inst, kw, prov):
         cd = inst.comp
-        self.events.append("gcd:" + cd["name"])
+        self.event("gcd:" + cd["name"], inst)
 
         def inj(key, has_default):
             if key in prov:
@@ -260,7 +273,7 @@ class Model:
                 elif k == "var":
                     text.append(self.to_str(e.lookup(n[1])))
                 elif k == "varf":
-                    self.events.append("filter:" + n[2])
+                    self.event("filter:" + n[2])
                     text.append(self.to_str(e.lookup(n[1])))
                 elif k == "if":
                     walk(n[2] if truthy(e.lookup(n[1], False)) else n[3], e)
@@ -283,7 +296,7 @@ class Model:
                 elif k == "provide":
                     walk(n[3], e)
                 elif k == "fault":
-                    self.events.append("tag:" + n[1])
+                    self.event("tag:" + n[1])
                 elif k == "filled":
                     text.append("x")
                 elif k == "alias_data":
@@ -364,9 +377,10 @@ class Model:
             raise ModelError("MODEL-STEP-CAP", "model exceeded its own step cap")
         pieces = []
         if inst.comp is None:  # dynamic wrapper
-            self.events.append("orb:dynamic-internal")
+            self.event("orb:dynamic-internal", inst)
             cd = self.comps[inst.dyn_target]
-            tgt = Inst(len(self.insts), inst.dyn_target, cd)
+            tgt = Inst(len(self.insts), "dynamic", cd)
+            tgt.parent = inst
             self.insts.append(tgt)
             tgt.fills = inst.fills
             tgt.prov = inst.prov
@@ -375,8 +389,13 @@ class Model:
             pieces.append(tgt)
             return pieces
         if inst.comp.get("hooks"):
-            self.events.append("orb:" + inst.name)
-        self.render_nodes(inst.comp["tmpl"], inst.env, inst, inst.prov, pieces, ck=inst)
+            self.event("orb:" + inst.comp["name"], inst)
+        prev = self.cur
+        self.cur = inst
+        try:
+            self.render_nodes(inst.comp["tmpl"], inst.env, inst, inst.prov, pieces, ck=inst)
+        finally:
+            self.cur = prev
         return pieces
 
     def full_render(self, root, out):
@@ -390,7 +409,6 @@ class Model:
                 work.append(("close", x))
                 for p in reversed(pieces):
                     if isinstance(p, Inst):
-                        p.parent = x
                         work.append(("open", p))
                     else:
                         work.append(("piece", p))
@@ -398,7 +416,7 @@ class Model:
                 out.append(x)
             else:
                 if x.comp is not None and x.comp.get("hooks"):
-                    self.events.append("ora:" + x.name)
+                    self.event("ora:" + x.comp["name"], x)
                 out.append(("inst_close", x.idx))
 
 
